@@ -225,6 +225,7 @@ var runtimeSwitches = map[string][]string{
 	"C02-flags-number-union-untagged":       {"union-flags-with-number"},
 	"C02-generic-union-param-case-untagged": {"union-with-param-case"},
 	"C08-cpp-map-key-without-hash":          {"map-key-chrono"},
+	"C01-python-array-of-vector":            {"array-of-vector"},
 	"C08-python-union-nested-in-alias":      {"union-nested-in-alias"},
 }
 
